@@ -377,7 +377,11 @@ def finish(ctx, level, rule, assumptions=(), exhaustive=False, extra=None):
           "coverage": cov, "assumptions": list(assumptions) + ctx.assumptions,
           "wall_s": round(time.time() - ctx.t0, 1), "violations": len(ctx.violations)}
     os.makedirs(os.path.join(ROOT, "evidence"), exist_ok=True)
-    with open(os.path.join(ROOT, "evidence", ctx.pid + ".json"), "w") as f:
+    # a run against another include tree (mutation / seeded-change experiments) must not overwrite
+    # the evidence of /repo itself
+    evpath = os.path.join(ROOT, "evidence", ctx.pid + ".json") if "VERIF_REPO_INCLUDE" not in os.environ \
+        else os.path.join(ctx.work, "evidence-other-tree.json")
+    with open(evpath, "w") as f:
         json.dump(ev, f, indent=1, default=str)
     for k in ctx.known:
         print("KNOWN-FINDING: property=%s %s" % (ctx.pid, k))
